@@ -11,11 +11,13 @@ use std::collections::BTreeMap;
 use std::panic::{self, AssertUnwindSafe};
 use std::sync::{mpsc, Condvar, Mutex, MutexGuard, Once};
 
-pub const MAX_THREADS: usize = 8;
+pub const MAX_THREADS: usize = 10;
 /// Pseudo address of the scheduling point inside payload `Clone`/view closures.
 pub const ADDR_PAYLOAD: usize = 1;
 /// Pseudo address of harness-level points (yield between retries, call boundaries).
 pub const ADDR_HARNESS: usize = 2;
+/// `Policy::Walk.target` value that designates the payload point instead of an address index
+pub const TARGET_PAYLOAD: u8 = 255;
 
 thread_local! {
     static TID: Cell<usize> = const { Cell::new(usize::MAX) };
@@ -82,7 +84,7 @@ pub enum Policy {
     },
     /// PCT: run the highest-priority enabled thread; at the given decision indices the running
     /// thread drops below all others.
-    Pct { prio: [u8; MAX_THREADS], change: Vec<u32> },
+    Pct { prio: Vec<u8>, change: Vec<u32> },
     /// follow a recorded trace (replay)
     Trace(Vec<u8>),
 }
@@ -165,6 +167,8 @@ pub struct Outcome {
     pub frees: u64,
     pub allocs: u64,
     pub weak_fail_injected: u64,
+    pub reclaim_batches: u64,
+    pub reclaim_batches_concurrent: u64,
 }
 
 struct Th {
@@ -216,6 +220,11 @@ struct State {
     weak_fail_injected: u64,
     weak_cas_seen: u64,
     stuck: Vec<ThreadInfo>,
+    last_solo_midcall: usize,
+    last_solo_used: u64,
+    consecutive_frees: u32,
+    reclaim_batches: u64,
+    reclaim_batches_concurrent: u64,
 }
 
 pub struct Sched {
@@ -298,6 +307,11 @@ impl State {
             weak_fail_injected: 0,
             weak_cas_seen: 0,
             stuck: Vec::new(),
+            last_solo_midcall: 0,
+            last_solo_used: 0,
+            consecutive_frees: 0,
+            reclaim_batches: 0,
+            reclaim_batches_concurrent: 0,
         }
     }
 
@@ -644,6 +658,7 @@ impl Sched {
 
     /// A scheduling point of the running thread (which stays runnable).
     fn point<'a>(&'a self, mut st: MutexGuard<'a, State>, me: usize, addr: usize) -> MutexGuard<'a, State> {
+        st.consecutive_frees = 0;
         st.step += 1;
         st.threads[me].steps += 1;
         if st.step > st.cfg.max_steps {
@@ -662,7 +677,7 @@ impl Sched {
                 return st;
             }
         }
-        st.pending_addr = st.addr_index(addr);
+        st.pending_addr = if addr == ADDR_PAYLOAD { TARGET_PAYLOAD as usize } else { st.addr_index(addr) };
         if trace_on() {
             eprintln!("  [{:>5}] t{} addr#{} act={:?}", st.step, me, st.pending_addr, st.threads[me].activity.kind);
         }
@@ -727,7 +742,7 @@ impl Sched {
             st.active = true;
             if let Policy::Pct { prio, .. } = &cfg.schedule.policy {
                 for i in 0..MAX_THREADS {
-                    st.pct_prio[i] = prio[i] as i32 + 1000;
+                    st.pct_prio[i] = prio.get(i).copied().unwrap_or(0) as i32 + 1000;
                 }
             }
             st.cfg = cfg;
@@ -771,6 +786,8 @@ impl Sched {
             frees: st.frees,
             allocs: st.allocs,
             weak_fail_injected: st.weak_fail_injected,
+            reclaim_batches: st.reclaim_batches,
+            reclaim_batches_concurrent: st.reclaim_batches_concurrent,
         };
         // release quarantined blocks
         let freed = std::mem::take(&mut st.freed);
@@ -818,6 +835,7 @@ impl Sched {
 
     /// A harness-level scheduling point.
     pub fn harness_point(&self, addr: usize) {
+        let _nc = crate::mem::NoCount::new();
         if let Some((me, st)) = self.enter() {
             let _st = self.point(st, me, addr);
         }
@@ -825,6 +843,7 @@ impl Sched {
 
     /// Marks the running thread as yielding (the others go first) and schedules.
     pub fn harness_yield(&self) {
+        let _nc = crate::mem::NoCount::new();
         if let Some((me, mut st)) = self.enter() {
             st.threads[me].yielded = true;
             let _st = self.point(st, me, ADDR_HARNESS);
@@ -833,6 +852,7 @@ impl Sched {
 
     /// Logical clock: a unique, strictly increasing timestamp.
     pub fn tick(&self) -> u64 {
+        let _nc = crate::mem::NoCount::new();
         let mut st = self.lock();
         st.step += 1;
         // ticks are not memory operations: do not let them trigger the livelock rule
@@ -854,6 +874,7 @@ impl Sched {
     }
 
     pub fn set_activity(&self, a: Act) {
+        let _nc = crate::mem::NoCount::new();
         if let Some(me) = current_tid() {
             let mut st = self.lock();
             if st.active {
@@ -882,6 +903,7 @@ impl Sched {
     }
 
     pub fn gate_open(&self, g: usize) {
+        let _nc = crate::mem::NoCount::new();
         let mut st = self.lock();
         if !st.active {
             return;
@@ -909,6 +931,7 @@ impl Sched {
 
     /// Futures task parking: returns when the task has been notified.
     pub fn park(&self) {
+        let _nc = crate::mem::NoCount::new();
         if let Some((me, mut st)) = self.enter() {
             if st.threads[me].notified {
                 st.threads[me].notified = false;
@@ -929,6 +952,7 @@ impl Sched {
     }
 
     pub fn unpark(&self, tid: usize) {
+        let _nc = crate::mem::NoCount::new();
         let mut st = self.lock();
         if !st.active || tid >= st.threads.len() {
             return;
@@ -953,6 +977,14 @@ impl Sched {
                 bound,
                 used: 0,
             });
+            let mid = st
+                .threads
+                .iter()
+                .enumerate()
+                .filter(|(i, t)| *i != me && t.in_call && matches!(t.state, TState::Runnable | TState::Blocked(_)))
+                .count();
+            st.last_solo_midcall = mid;
+            st.last_solo_used = 0;
         }
         let r = f();
         {
@@ -961,6 +993,7 @@ impl Sched {
                 if s.used > st.max_solo {
                     st.max_solo = s.used;
                 }
+                st.last_solo_used = s.used;
             }
             st.mark_change();
         }
@@ -968,10 +1001,17 @@ impl Sched {
     }
 
     pub fn record_fault(&self, msg: String) {
+        let _nc = crate::mem::NoCount::new();
         let mut st = self.lock();
         if st.faults.len() < 16 {
             st.faults.push(msg);
         }
+    }
+
+    /// (number of other threads frozen inside an API call, points used) of the last solo run
+    pub fn last_solo(&self) -> (usize, u64) {
+        let st = self.lock();
+        (st.last_solo_midcall, st.last_solo_used)
     }
 
     pub fn exec_no(&self) -> u64 {
@@ -994,6 +1034,7 @@ impl Runtime for Sched {
     }
 
     fn before_op(&self, _kind: OpKind, addr: usize) {
+        let _nc = crate::mem::NoCount::new();
         if let Some((me, st)) = self.enter() {
             if addr != 0 {
                 if let Some(f) = st.check_uaf(addr) {
@@ -1012,6 +1053,7 @@ impl Runtime for Sched {
     }
 
     fn after_op(&self, _kind: OpKind, _addr: usize, changed: bool) {
+        let _nc = crate::mem::NoCount::new();
         if !changed {
             return;
         }
@@ -1025,6 +1067,7 @@ impl Runtime for Sched {
     }
 
     fn weak_cas_may_fail(&self) -> bool {
+        let _nc = crate::mem::NoCount::new();
         if current_tid().is_none() {
             return false;
         }
@@ -1047,6 +1090,7 @@ impl Runtime for Sched {
     }
 
     fn mutex_lock(&self, addr: usize) {
+        let _nc = crate::mem::NoCount::new();
         if let Some((me, st)) = self.enter() {
             let mut st = self.point(st, me, addr);
             loop {
@@ -1065,6 +1109,7 @@ impl Runtime for Sched {
     }
 
     fn mutex_try_lock(&self, addr: usize) -> bool {
+        let _nc = crate::mem::NoCount::new();
         if let Some((me, st)) = self.enter() {
             let mut st = self.point(st, me, addr);
             if st.mutexes.iter().any(|(a, _)| *a == addr) {
@@ -1080,6 +1125,7 @@ impl Runtime for Sched {
     }
 
     fn mutex_unlock(&self, addr: usize) {
+        let _nc = crate::mem::NoCount::new();
         if current_tid().is_none() {
             return;
         }
@@ -1094,6 +1140,7 @@ impl Runtime for Sched {
     }
 
     fn cond_wait(&self, cv: usize, mutex: usize) {
+        let _nc = crate::mem::NoCount::new();
         if let Some((me, mut st)) = self.enter() {
             if let Some(pos) = st.mutexes.iter().position(|(a, _)| *a == mutex) {
                 st.mutexes.swap_remove(pos);
@@ -1113,6 +1160,7 @@ impl Runtime for Sched {
     }
 
     fn cond_notify_all(&self, cv: usize) {
+        let _nc = crate::mem::NoCount::new();
         if current_tid().is_none() {
             return;
         }
@@ -1124,6 +1172,7 @@ impl Runtime for Sched {
     }
 
     fn yield_now(&self) {
+        let _nc = crate::mem::NoCount::new();
         match self.enter() {
             Some((me, mut st)) => {
                 st.threads[me].yielded = true;
@@ -1138,6 +1187,7 @@ impl Runtime for Sched {
     }
 
     fn touch(&self, addr: usize) {
+        let _nc = crate::mem::NoCount::new();
         if let Some((me, st)) = self.enter() {
             if let Some(f) = st.check_uaf(addr) {
                 let mut st = st;
@@ -1150,6 +1200,7 @@ impl Runtime for Sched {
     }
 
     fn on_alloc(&self, addr: usize, bytes: usize, align: usize) {
+        let _nc = crate::mem::NoCount::new();
         let mut st = self.lock();
         if !st.active {
             return;
@@ -1161,11 +1212,26 @@ impl Runtime for Sched {
     }
 
     fn on_dealloc(&self, addr: usize, bytes: usize, align: usize) -> bool {
+        let _nc = crate::mem::NoCount::new();
         let mut st = self.lock();
         if !st.active {
             return false;
         }
         st.frees += 1;
+        st.consecutive_frees += 1;
+        if st.consecutive_frees == 6 {
+            // several deallocations with no shared-memory operation in between: a deferred batch
+            st.reclaim_batches += 1;
+            let me = current_tid().unwrap_or(usize::MAX);
+            if st
+                .threads
+                .iter()
+                .enumerate()
+                .any(|(i, t)| i != me && t.in_call && t.state != TState::Finished)
+            {
+                st.reclaim_batches_concurrent += 1;
+            }
+        }
         if !st.cfg.quarantine {
             return false;
         }
